@@ -340,11 +340,8 @@ namespace smt
         else if (const auto at_expr = exprs.find(s_expr); at_expr != exprs.cend()) // the expression already exists..
             return at_expr->second;
         else
-        { // we need to create a new variable..
-            const auto ctr = new_at_most_one(ls);
-            ls.push_back(!ctr);
-            if (!new_clause(std::move(ls)))
-                return FALSE_lit;
+        { // the exact-one is the conjunction of the at-most-one and of the at-least-one (we do not strengthen the at-most-one literal, which might be shared with other users)..
+            const auto ctr = new_conj({new_at_most_one(ls), new_disj(ls)});
             exprs.emplace(s_expr, ctr);
             return ctr;
         }
